@@ -421,9 +421,6 @@ inductive Err where
 
 structure DOpts where
   discard : Bool := false
-  /-- text only. `false`: the code as it is (`skipValue` ignores the recursion limit and its result is
-  dropped by `unmarshalMessage`); `true`: after fixes/prototext-skip-depth.diff -/
-  skipLimited : Bool := false
   deriving Repr
 
 inductive Res where
@@ -1028,55 +1025,61 @@ def tdScalar (C : TCodec) (fx : FieldX) : TV → Except Err Val
   | .scalar t => tdTok C fx t
   | _ => .error .syntax
 
-mutual
-/-- prototext `skipValue`: **no recursion limit** (DESIGN finding 10) -/
-def skipT : TV → Except Err Unit
-  | .scalar _ => .ok ()
-  | .msg fs => skipTFields fs
-  | .list es => skipTElems es
-/-- `skipMessageValue` -/
-def skipTFields : TFields → Except Err Unit
-  | .nil => .ok ()
-  | .cons _ _ v tl =>
-    match skipT v with
-    | .error e => .error e
-    | .ok _ => skipTFields tl
-def skipTElems : TElems → Except Err Unit
-  | .nil => .ok ()
-  | .cons v tl =>
-    match v with
-    | .msg fs =>
-      (match skipTFields fs with
-       | .error e => .error e
-       | .ok _ => skipTElems tl)
-    | .scalar _ => skipTElems tl
-    | .list _ => skipTElems tl
-end
-
-/-! ### the repair of finding 10 (fixes/prototext-skip-depth.diff): skipping with the limit -/
+/-! ### `skipValue` / `skipMessageValue`: skipped messages count towards the recursion limit like parsed ones
+(since /repo 5d21ab7, the repair of DESIGN finding 10; the result of `skipValue` is returned by all callers) -/
 
 mutual
-def skipTFix (limit : Int) : TV → Except Err Unit
+/-- prototext `skipValue` -/
+def skipT (limit : Int) : TV → Except Err Unit
   | .scalar _ => .ok ()
-  | .msg fs => if limit - 1 < 0 then .error .depth else skipTFieldsFix (limit - 1) fs
-  | .list es => skipTElemsFix limit es
-def skipTFieldsFix (limit : Int) : TFields → Except Err Unit
+  | .msg fs => if limit - 1 < 0 then .error .depth else skipTFields (limit - 1) fs
+  | .list es => skipTElems limit es
+/-- `skipMessageValue` after its `RecursionLimit--` check -/
+def skipTFields (limit : Int) : TFields → Except Err Unit
   | .nil => .ok ()
   | .cons _ _ v tl =>
-    match skipTFix limit v with
+    match skipT limit v with
     | .error e => .error e
-    | .ok _ => skipTFieldsFix limit tl
-def skipTElemsFix (limit : Int) : TElems → Except Err Unit
+    | .ok _ => skipTFields limit tl
+def skipTElems (limit : Int) : TElems → Except Err Unit
   | .nil => .ok ()
   | .cons v tl =>
     match v with
     | .msg fs =>
       if limit - 1 < 0 then .error .depth else
-      (match skipTFieldsFix (limit - 1) fs with
+      (match skipTFields (limit - 1) fs with
        | .error e => .error e
-       | .ok _ => skipTElemsFix limit tl)
-    | .scalar _ => skipTElemsFix limit tl
-    | .list _ => skipTElemsFix limit tl
+       | .ok _ => skipTElems limit tl)
+    | .scalar _ => skipTElems limit tl
+    | .list _ => skipTElems limit tl
+end
+
+/-! ### HISTORICAL: `skipValue` before /repo 5d21ab7 (DESIGN finding 10) — no recursion limit.  Not used by the
+model of the current code; kept for the labelled regression examples `C26.Old.old_*` only. -/
+
+mutual
+/-- prototext `skipValue` as it was: **no recursion limit** -/
+def skipTOld : TV → Except Err Unit
+  | .scalar _ => .ok ()
+  | .msg fs => skipTFieldsOld fs
+  | .list es => skipTElemsOld es
+/-- `skipMessageValue` as it was -/
+def skipTFieldsOld : TFields → Except Err Unit
+  | .nil => .ok ()
+  | .cons _ _ v tl =>
+    match skipTOld v with
+    | .error e => .error e
+    | .ok _ => skipTFieldsOld tl
+def skipTElemsOld : TElems → Except Err Unit
+  | .nil => .ok ()
+  | .cons v tl =>
+    match v with
+    | .msg fs =>
+      (match skipTFieldsOld fs with
+       | .error e => .error e
+       | .ok _ => skipTElemsOld tl)
+    | .scalar _ => skipTElemsOld tl
+    | .list _ => skipTElemsOld tl
 end
 
 /-- prototext `unmarshalMessage`, one iteration up to the value: name lookup, unknown / reserved names
@@ -1089,14 +1092,10 @@ def tdHead (D : DOpts) (X : SchemaX) (d : MsgX) (limit : Int) (name : TName) (se
   | .byNumber => .error .byNumber
   | .unknown s =>
     if D.discard || d.reserved.contains s then
-      if D.skipLimited then
-        match skipTFix limit v with
-        | .error e => .error e
-        | .ok _ => .skip sn
-      else
-        -- `d.skipValue(); continue` — the result of skipValue is dropped
-        match skipT v with
-        | _ => .skip sn
+      -- `if err := d.skipValue(); err != nil { return err }; continue`
+      match skipT limit v with
+      | .error e => .error e
+      | .ok _ => .skip sn
     else .error .unknown
   | .found fx =>
     match fx.f.card with
@@ -1126,11 +1125,10 @@ inductive EHead where
 /-- an unknown field inside a map entry -/
 def entryUnknown (D : DOpts) (limit : Int) (v : TV) : EHead :=
   if !D.discard then .error .unknown
-  else if D.skipLimited then
-    match skipTFix limit v with
+  else
+    match skipT limit v with
     | .error e => .error e
     | .ok _ => .skip
-  else .skip
 
 def tdEntryHead (D : DOpts) (ed : MsgX) (limit : Int) (name : TName) (sep : Bool) (v : TV) (st : EntrySt) : EHead :=
   match ed.find 1, ed.find 2 with
